@@ -249,6 +249,26 @@ def run (ctx):
                   "`%s` returns a string on one path and its argument unchanged (`return %s`) on another; the field printer concatenates the result to text: TypeError for an int field - %s evaluates `%s.show()` eagerly before acting, "
                   "so such a request is neither carried out nor answered" % (fm_, norm(bare[0].value), h.qual, req), (lofm, bare[0]), 'D6')
   ctx.stat('printing methods of requests followed', n_show)
+  # send_error quotes the offending request by packing it again, and pack() starts with `assert self._assert()`: a request class whose
+  # _validate() rejects a *value* of a wire field (a range test) turns every error reply for such a request into an AssertionError
+  # inside the handler - the request is neither answered nor refused.  Validation of decoded requests looks at types and sizes only
+  n_val = 0
+  for mname, h in sorted(handlers.items()):
+    mcls = [m for m in msgs if m.name == mname][0].cls
+    vf = mcls.methods.get('_validate'); uf = mcls.find_method('unpack')
+    if vf is None or uf is None: continue
+    n_val += 1; ctx.analysed(vf)
+    wire = set(t_.attr for t_, v_, st_, k_ in q.stores_in(uf.node) if isinstance(t_, ast.Attribute) and norm(t_.value) == 'self')
+    gv_ = q.cfg_of(vf)
+    for rn_ in [n_ for n_ in gv_.nodes if n_.kind == 'return' and n_.ast.value is not None and not (isinstance(n_.ast.value, ast.Constant) and n_.ast.value.value is None)]:
+      for (l_, o_, r_, b_) in q.guard_facts(gv_, rn_):
+        if r_ is None or o_ not in ('<', '<=', '>', '>='): continue
+        fld = [x_.attr for side in (l_, r_) for x_ in ast.walk(side) if isinstance(x_, ast.Attribute) and norm(x_.value) == 'self' and x_.attr in wire]
+        if not fld or any(isinstance(x_, ast.Call) and call_name(x_) == 'len' for side in (l_, r_) for x_ in ast.walk(side)): continue
+        ctx.bad('R-AGREE', vf, "a decoded request can be packed again (no value-range rejection of `%s` in _validate)" % fld[0],
+                "%s._validate() fails when `%s %s %s`, a value the decoder accepts from the wire; %s quotes the request in its error replies through send_error -> ofp.pack() -> assert self._assert(): for such a request the handler "
+                "raises instead of answering - neither a reply nor an error leaves the switch" % (mcls.name, norm(l_), o_, norm(r_), h.qual), (lofm, rn_.ast), 'D6')
+  ctx.stat('request classes with their own _validate', n_val)
 
   # the connection's send() encodes and writes at once: a reply queued as an object and encoded later would reflect
   # state changed by later requests of the same read (and a barrier reply could overtake earlier effects)
